@@ -21,7 +21,7 @@ EXPLANATION = (
     "same field table (bincode is positional); (R5) no field other than `prefixes` receives seeds on the "
     "eval/puncture paths (writers inventory).  NOT decided: that the re-added nodes are exactly the off-path "
     "siblings (needs the algorithm's correctness), zeroisation of freed memory.")
-ASSUMPTIONS = ["GGM::bit_eval is called with at least one bit in GGM::puncture (sibling depth > covering prefix length)"]
+ASSUMPTIONS = ["the bitwise PRG descent runs over at least one bit in GGM::puncture (sibling depth > covering prefix length)"]
 TRUSTED = []
 
 KEY = "ppoprf::ggm::GGMPuncturableKey"
@@ -43,25 +43,19 @@ def _alternatives(v, depth=0):
     return [v]
 
 
-def covering_removed(ctx, rule, cfg="A"):
-    """on every path on which the public GGM puncture reports success, the retained node set it leaves behind is the
-    initial set with the covering node REMOVED (then possibly extended by the co-path): decided on the final state of
-    `self.key.prefixes` narrowed to the Ok alternative, whichever function performs the removal"""
+def final_prefixes_on_ok(ctx, eng, ret, st, cfg="A"):
+    """the values `self.key.prefixes` may have when GGM::puncture returns Ok (final state narrowed to the Ok alternative)"""
     from ..sym import field as sym_field
-    root = c10.PUNC
-    eng, ret, st, fr = ctx.root(root, cfg)
-    at = ctx.fn(root, cfg).loc
     ik = fidx(ctx, c10.GGM, "key", cfg)
     ipf = fidx(ctx, KEY, "prefixes", cfg)
-    want = "self.%d.%d" % (ik, ipf)
     okv = Q.variant(ret, 0)
     selfv = None
     if okv is not None and st is not None:
         st_ok = eng.refine_state(_Outer, st, ret, {0})
         selfv = st_ok.get(("param", "self"))
     if selfv is None:
-        ctx.add(rule, root + "#removes-covering-node", False, "GGM::puncture has no Ok alternative or no final key state", at)
-        return
+        return None
+
     def expand(t, depth=0):
         """the values t may stand for, with field projections pushed through (non-loop) joins"""
         if not Q.is_t(t) or depth > 8:
@@ -92,7 +86,24 @@ def covering_removed(ctx, rule, cfg="A"):
     finals = []
     for k_ in project(selfv, ik):
         finals += project(k_, ipf)
-    finals = list({x.id: x for x in finals}.values())
+    return list({x.id: x for x in finals}.values())
+
+
+def covering_removed(ctx, rule, cfg="A"):
+    """on every path on which the public GGM puncture reports success, the retained node set it leaves behind is the
+    initial set with the covering node REMOVED (then possibly extended by the co-path): decided on the final state of
+    `self.key.prefixes` narrowed to the Ok alternative, whichever function performs the removal"""
+    from ..sym import field as sym_field
+    root = c10.PUNC
+    eng, ret, st, fr = ctx.root(root, cfg)
+    at = ctx.fn(root, cfg).loc
+    ik = fidx(ctx, c10.GGM, "key", cfg)
+    ipf = fidx(ctx, KEY, "prefixes", cfg)
+    want = "self.%d.%d" % (ik, ipf)
+    finals = final_prefixes_on_ok(ctx, eng, ret, st, cfg)
+    if finals is None:
+        ctx.add(rule, root + "#removes-covering-node", False, "GGM::puncture has no Ok alternative or no final key state", at)
+        return
     removals, kept = [], []
     for f in finals:
         t, n = f, 0
@@ -196,16 +207,26 @@ def run(ctx):
     eng, ret, st, fr = ctx.root(root)
     at = ctx.fn(root).loc
     fp = Q.calls(eng, "GGMPuncturableKey::find_prefix")
-    kp = Q.calls(eng, KPUNC)
-    if len(fp) == 1 and len(kp) == 1 and Q.variant(fp[0]["result"], 0):
+    finals = final_prefixes_on_ok(ctx, eng, ret, st, "A")
+    ds = c10.prg_descents(eng)
+    if len(fp) == 1 and finals and Q.variant(fp[0]["result"], 0):
         from ..sym import field
         P = c10.covering_node(Q.variant(fp[0]["result"], 0)[2][0])
         seed = field(P, 1)
-        newp = kp[0]["argv"][3]
+        # what a successful puncture adds to the retained set
+        newp = []
+        for f in finals:
+            t, n = f, 0
+            while Q.is_t(t) and t.op in ("append", "push", "inserted") and n < 8:
+                newp += list(t.args[1:])
+                t = t.args[0]
+                n += 1
+        # the accumulators of the bitwise PRG descents are declared one-way (their value is a generator output)
+        accs = {c10._strip(e["argv"][1]).id for e, init, _, _ in ds if init is not None}
 
-        def nodes_decl(t):
+        def nodes_decl(ts):
             seen = set()
-            stack = [t]
+            stack = list(ts)
             while stack:
                 x = stack.pop()
                 if isinstance(x, (tuple, frozenset, list)):
@@ -217,24 +238,22 @@ def run(ctx):
                 if x.op == "owf":
                     continue
                 if x.op == "phi":
-                    k = x.args[0]
-                    if "bit_eval" in str(k[0]) or (len(k) > 2 and "bit_eval" in str(k[2])):
+                    if x.id in accs:
                         continue    # declared one-way: output of the bitwise PRG descent
-                    inc = PHI.get(k)
+                    inc = PHI.get(x.args[0])
                     if inc:
                         stack.extend(inc.values())
                     continue
                 stack.extend(Q.raw_children(x))
             return seen
-        ctx.add("C11.R3", root + "#covering-seed-only-through-prg", seed.id not in nodes_decl(newp),
-                "the covering node's seed flows into the re-added nodes outside the PRG descent", kp[0]["at"],
-                sample={"new_nodes": S(newp, 3)})
-        # the re-added seeds are bit_eval outputs
-        be = Q.calls(eng, "GGM::bit_eval")
-        ctx.add("C11.R3", root + "#new-seeds-are-descent-outputs", bool(be) and all(e["argv"][2] is seed for e in be),
-                "sibling seeds must be derived by bit_eval from the covering seed", at)
+        ctx.add("C11.R3", root + "#covering-seed-only-through-prg", bool(newp) and seed.id not in nodes_decl(newp),
+                "the covering node's seed flows into the re-added nodes outside the PRG descent", ds[0][0]["at"] if ds else at,
+                sample={"new_nodes": [S(x, 3) for x in newp]})
+        # the re-added seeds are descent outputs computed from the covering seed
+        ctx.add("C11.R3", root + "#new-seeds-are-descent-outputs", bool(ds) and all(init is seed for _, init, _, _ in ds),
+                "sibling seeds must be derived by the bitwise PRG descent from the covering seed", at)
     else:
-        ctx.add("C11.R3", root + "#shape", False, "expected one find_prefix and one key.puncture call", at)
+        ctx.add("C11.R3", root + "#shape", False, "expected one prefix lookup and a successful key update in GGM::puncture", at)
     ctx.floor("C11.R3", 2)
 
     # ---- R4 export / import (cfg B) ---------------------------------------------------------------------------
